@@ -58,7 +58,9 @@ def run(E: Engine, rep: Report, tier: str) -> dict:
     for _n, _i, e in fl.all_events():
         if e.kind == "reflective":
             n_replay += 1
-            recv = e.node.func.args[0]
+            from ..resolve import reflective_getattr
+
+            recv = reflective_getattr(e.node, fl.ctx).args[0]
             roots = fl.roots(recv)
             rep.check(roots <= {"fresh"}, "OWN", f"Sequence.build|replay-receiver-fresh|{norm(recv)}", "calls are replayed on a freshly constructed sequence", f"build replays calls on `{norm(recv)}` whose provenance is {sorted(roots)} (not a fresh object): the template itself could be modified", E.where(build, e.node))
     if n_replay < 2:
